@@ -281,6 +281,7 @@ VERT_CASES = [
     ("u8_w47_t2", "U8", 1, 47, 1, 3, 14, [(1, [12288, 4099])]),          # 32 + 8 + 4 + 3 components; taps with few bits set (cheap for SAT), sum 2^14 + 3
     ("u8_w47_t3", "U8", 1, 47, 0, 3, 14, [(0, [-2048, 16448, 1979])]),   # sum 2^14 - 5
     ("u8_w47_t1", "U8", 1, 47, 2, 3, 12, [(2, [4099])]),
+    ("u8_w7_t2", "U8", 1, 7, 0, 3, 14, [(0, [12288, 4099])]),             # (added by the lead for the quick tier) one 4-chunk + native tail of 3; sum 2^14 + 3
     ("u8x4_w3", "U8x4", 4, 3, 1, 5, 12, [(0, 5), (3, [32767, 32767])]),    # 8 + 4; second window: saturation of PACKSSDW / PACKUSWB against the clamp of clip
     ("u8x3_w5", "U8x3", 3, 5, 0, 3, 13, [(0, 3)]),           # 8 + 4 + 3
     ("u8x2_w9", "U8x2", 2, 9, 2, 3, 15, [(1, 2)]),           # 8 + 8 + 2
@@ -521,9 +522,9 @@ UNITS = [dict(
 # --- tiers (set by the lead): a representative subset runs in the quick tier, the full list of 78 harnesses in the thorough tier ---------
 K9_QUICK = {
     "k9_native_srai", "k9_native_lanes",
-    "k9_vertical_sse4_u8x3_w5", "k9_vertical_avx2_u8x3_w5", "k9_vertical_sse4_u8_w47_t1", "k9_vertical_avx2_u8_w47_t1",
+    "k9_vertical_sse4_u8_w7_t2", "k9_vertical_avx2_u8_w7_t2",
     "k9_u8x4_avx2_one_row_w0", "k9_u8x4_sse4_one_row_w1", "k9_u8x4_avx2_dispatch_h3",
-    "k9_u8x3_sse4_one_row_w2", "k9_u8x3_avx2_one_row_w2", "k9_u8x3_avx2_four_rows_w2",
+    "k9_u8x3_sse4_one_row_w2", "k9_u8x3_avx2_one_row_w2",
     "k9_u8x2_sse4_one_row_w2", "k9_u8x2_avx2_one_row_w1",
 }
 for _u in UNITS:
